@@ -150,7 +150,7 @@ func (conn *ConnectionSet) Subtract(other *ConnectionSet) {
 // added explicitly, without using the `AllowAll` field
 func (conn *ConnectionSet) addAllConns() {
 	for _, protocol := range allProtocols {
-		conn.AddConnection(protocol, MakePortSet(true))
+		conn.AllowedProtocols[protocol] = MakePortSet(true)
 	}
 }
 
@@ -202,6 +202,7 @@ func (conn *ConnectionSet) AddConnection(protocol v1.Protocol, ports *PortSet) {
 	} else {
 		conn.AllowedProtocols[protocol] = ports.Copy()
 	}
+	conn.checkIfAllConnections()
 }
 
 // String returns a string representation of the ConnectionSet object
